@@ -1,5 +1,5 @@
 /* Ghost state of the decompression layer (C07, containment part).  Updated only by the contracts of
- * REPLACED callees (downstream sink of a decompressor, zlib / LZMA entry points, decompressor factory, log). */
+ * REPLACED callees (downstream sink of a decompressor). */
 #ifndef GHOST_C07_H
 #define GHOST_C07_H
 #define GHOSTS_C07(X) \
@@ -10,9 +10,7 @@
     /* entry state: the stream is dead (ended after an error and not in passthrough mode) */ \
     X(int, g_c07_dead) \
     /* bytes the sink still accepts before it reports a bomb (models the inequality proved for the real callbacks); termination only */ \
-    X(size_t, g_c07_budget) \
-    /* decompressor factory stub: layers created, LZMA layers created, failed flag */ \
-    X(int, g_c07_made) X(int, g_c07_made_lzma) X(int, g_c07_make_failed) X(int, g_c07_destroyed)
+    X(size_t, g_c07_budget)
 
 #define C07_BUF 8192
 /* z_stream cursor of a decompressor: output window inside the 8 KiB buffer, input window inside the caller's chunk.
